@@ -351,8 +351,15 @@ pub fn step(ctx: &BuildContext<TestBp>, layers: &Path, scratch: &Path, names: &[
                             "execd" => {
                                 let mut progs: Vec<(String, PathBuf)> = vec![];
                                 for (pi, p) in w["progs"].as_array().unwrap().iter().enumerate() {
-                                    let src = scratch.join(format!("src_{opi}_{wi}_{pi}"));
-                                    if !p[1].is_null() {
+                                    let mut src = scratch.join(format!("src_{opi}_{wi}_{pi}"));
+                                    if let Some(rel) = p[1].get("layer_rel") {
+                                        // the source is a file of the layer itself (a program registered again from exec.d)
+                                        let base = match lref {
+                                            Ref::Cached(r) => r.path(),
+                                            Ref::Uncached(r) => r.path(),
+                                        };
+                                        src = fsutil::path_of(&base, rel);
+                                    } else if !p[1].is_null() {
                                         std::fs::write(&src, bytes_of(&p[1][1])).unwrap();
                                         crate::util::age_source(&src);
                                         std::fs::set_permissions(&src, std::fs::Permissions::from_mode(u32::try_from(p[1][0].as_u64().unwrap()).unwrap())).unwrap();
